@@ -48,6 +48,8 @@ MustRefuse(w) ==
 \* start-up MUST succeed with exactly the written values
 MustRun(w) ==
     /\ ~MustRefuse(w)
+    /\ ~w.multidoc                                     \* a file holding several YAML documents may be refused (the code does);
+                                                      \* if it is accepted, every setting in it counts, whichever document holds it
     /\ w.seed \notin SeedTextLost
     /\ \A k \in IntKeys : Written(w, k) => InDocRange(k, w[k])
     /\ StatsOn(w) => w.persistence_directory = "dir"
